@@ -4,6 +4,8 @@
   `activationListener` in socketactivation.go and of its use in `setListener`.
 -/
 import Varlink.Activation
+import Varlink.Extracted.Code
+import Varlink.ExpectedCode
 namespace Varlink.C20
 open Varlink
 
@@ -228,5 +230,11 @@ example : activation envThree 4242 (fun _ => .other) = none := by decide
 example : selectFd { envThree with listenFdNames := some (str "x:varlink") } 4242 = none := by decide
 example : selectFd { envThree with listenFds := some (str "0") } 4242 = none := by decide
 example : selectFd { envThree with listenFds := some (str "foo") } 4242 = none := by decide
+
+/-- **Tie to the source**: the declarations of /repo that this property's model transliterates
+    (`Extracted.codeNames_C20`) have, in the current working tree, exactly the fingerprints of the code the
+    model was validated against. Any change to them breaks this obligation; the check then searches the
+    correspondence streams for an input on which the changed code violates the property. -/
+theorem modelled_code_unchanged : Varlink.Extracted.code_C20 = Varlink.ExpectedCode.code_C20 := by decide
 
 end Varlink.C20
